@@ -556,8 +556,22 @@ def mon_C09(ops, results):
 
 
 def mon_C11(ops, results):
-    out = []
+    out, now = [], 1700000000
     for i, name, pos, args, res, last, feeds in Trace(ops, results).steps():
+        if name == "now":
+            now = int(arg(args, "s", str(now)))
+        if name == "fire":
+            # the expiry sweep of one collection's documents must not touch another collection's document of the same key
+            rbs, _ = following(ops, results, i)
+            for key, after in rbs.items():
+                before = last.get(key)
+                if before is None or absent(before):
+                    continue
+                e = int(before.get("row.exp", "0"))
+                if not (0 < e <= now) and row_of(before) != row_of(after):
+                    due_elsewhere = [c for (c, k), d in last.items() if k == key[1] and c != key[0] and not absent(d) and 0 < int(d.get("row.exp", "0")) <= now]
+                    if due_elsewhere:
+                        out.append(viol("C11.expiry-in-one-collection-leaves-others", i, "%s/%s is not due but was changed by the sweep while %s/%s expired" % (key[0], key[1], due_elsewhere[0], key[1])))
         if name not in MUTATORS or len(pos) < 2 or res.startswith("r=panic"):
             continue
         rbs, drains = following(ops, results, i)
